@@ -1,7 +1,10 @@
 package c10
 
 import (
+	"archive/tar"
+	"compress/gzip"
 	"fmt"
+	goio "io"
 	"os"
 	"path/filepath"
 	"sort"
@@ -35,6 +38,8 @@ type cliCase struct {
 	Ranges   []prange   `json:"ranges,omitempty"` // build seqboot --partition: the partition set (several ranges and strides per partition)
 	Layout   cli.Layout `json:"layout"`           // presentation of the input FASTA file
 	OutFile  bool       `json:"outfile"`          // the main output goes to a file (-o) instead of the standard output
+	Gz       bool       `json:"gz"`               // build seqboot --gz
+	Tar      bool       `json:"tar"`              // build seqboot --tar
 	Stale    bool       `json:"stale"`            // first run: every output file exists already, with a longer stale content
 	T        int        `json:"threads"`          // 0: -t is not given; otherwise two more runs with -t T
 	Big      *bigSpec   `json:"big,omitempty"`
@@ -182,6 +187,15 @@ func genCLI(t *rapid.T) cliCase {
 				c.A = 1
 			}
 		}
+		// the replicates as plain files, compressed files, or one (compressed) tar archive
+		switch rapid.IntRange(0, 5).Draw(t, "container") {
+		case 1:
+			c.Gz = true
+		case 2:
+			c.Tar = true
+		case 3:
+			c.Gz, c.Tar = true, true
+		}
 		c.K = rapid.IntRange(1, 3).Draw(t, "nboot")
 		if c.T > 0 {
 			c.K = rapid.IntRange(2, 8).Draw(t, "nboot_threads")
@@ -287,8 +301,22 @@ func runCLI(dir string, c cliCase, threads int, stale bool) (cliRun, []string) {
 			args = append(args, "--partition", pf, "--out-partition", filepath.Join(work, "out.partition"))
 			outputs = append(outputs, "out.partition")
 		}
-		for k := 0; k < c.K; k++ {
-			outputs = append(outputs, fmt.Sprintf("out.boot%d.fa", k))
+		switch {
+		case c.Tar && c.Gz:
+			args = append(args, "--tar", "--gz")
+			outputs = append(outputs, "out.boot.tar.gz")
+		case c.Tar:
+			args = append(args, "--tar")
+			outputs = append(outputs, "out.boot.tar")
+		case c.Gz:
+			args = append(args, "--gz")
+			for k := 0; k < c.K; k++ {
+				outputs = append(outputs, fmt.Sprintf("out.boot%d.fa.gz", k))
+			}
+		default:
+			for k := 0; k < c.K; k++ {
+				outputs = append(outputs, fmt.Sprintf("out.boot%d.fa", k))
+			}
 		}
 		if c.Flag {
 			args = append(args, "-S")
@@ -308,6 +336,42 @@ func runCLI(dir string, c cliCase, threads int, stale bool) (cliRun, []string) {
 	for _, f := range outs {
 		b, _ := os.ReadFile(f)
 		r.files[filepath.Base(f)] = string(b)
+	}
+	// compressed files and archives are opened: what is compared and checked is their content (a
+	// tar header carries the time of the run)
+	for _, name := range keysOf(r.files) {
+		content := r.files[name]
+		if strings.HasSuffix(name, ".gz") {
+			zr, err := gzip.NewReader(strings.NewReader(content))
+			if err != nil {
+				r.files[name] = "unreadable gzip: " + err.Error()
+				continue
+			}
+			b, err := goio.ReadAll(zr)
+			if err != nil {
+				r.files[name] = "unreadable gzip: " + err.Error()
+				continue
+			}
+			delete(r.files, name)
+			name = strings.TrimSuffix(name, ".gz")
+			content = string(b)
+			r.files[name] = content
+		}
+		if strings.HasSuffix(name, ".tar") {
+			delete(r.files, name)
+			tr := tar.NewReader(strings.NewReader(content))
+			for {
+				h, err := tr.Next()
+				if err != nil {
+					if err != goio.EOF {
+						r.files[name] = "unreadable tar: " + err.Error()
+					}
+					break
+				}
+				b, _ := goio.ReadAll(tr)
+				r.files[filepath.Base(h.Name)] = string(b)
+			}
+		}
 	}
 	os.RemoveAll(work)
 	// the arguments without the scratch directory, for messages
@@ -568,10 +632,23 @@ func checkCLI(dir string) func(c cliCase) (pbt.Outcome, error) {
 				if err != nil {
 					break
 				}
+				if len(c.Ranges) > 0 {
+					// the partition file written for the replicates describes their blocks
+					part, k := partitionOf(c.Ranges, l)
+					if partial := blocksShorterThanParts(c.A, part, k); partial && steerAround(keyOutPartitionFrac) {
+						// FINDINGS.md: with --frac < 1 the file lists the columns of the FULL partitions
+						o.Exclude(keyOutPartitionFrac)
+					} else if err = invOutPartition(r1.files["out.partition"], orig, rows, c.A, part, k); err != nil {
+						break
+					}
+				}
 				got = rows
 				if aliLen(rows) > 0 {
 					drew = true
 				}
+			}
+			if c.Gz || c.Tar {
+				o.Class("seqboot gz=%v tar=%v", c.Gz, c.Tar)
 			}
 		}
 		o.Ambiguous += amb
@@ -590,6 +667,103 @@ func checkCLI(dir string) func(c cliCase) (pbt.Outcome, error) {
 		o.NonTrivial = (changed || drew) && n >= 2 && l >= 2
 		return o, nil
 	}
+}
+
+// Findings on the unchanged tree that wait for a decision (props/c10/FINDINGS.md): the oracle steers
+// around their signature and counts it, exactly as for a listed known finding
+const keyOutPartitionFrac = "seqboot-out-partition-ignores-frac"
+
+var pending = map[string]bool{keyOutPartitionFrac: true}
+
+func steerAround(key string) bool { return pbt.Known(key) || pending[key] }
+
+// blocksShorterThanParts: some block of the replicate has fewer columns than its partition
+func blocksShorterThanParts(frac float64, part []int, k int) bool {
+	if frac <= 0 || frac > 1 {
+		return false
+	}
+	size := make([]int, k)
+	for _, p := range part {
+		if p >= 0 {
+			size[p]++
+		}
+	}
+	for _, s := range size {
+		if lo, _ := floors(frac, s); lo != s {
+			return true
+		}
+	}
+	return false
+}
+
+// invOutPartition: the partition file that `build seqboot --partition` writes for the replicates
+// ("model,name=a-b,c" per line, 1-based) must give every column of the replicate to exactly one
+// partition, partition p a contiguous block after the blocks of the partitions before it, of
+// floor(frac*L_p) columns, all of them columns of partition p of the original
+func invOutPartition(file string, orig, got []gen.Row, frac float64, part []int, k int) error {
+	gl := aliLen(got)
+	lines := linesOf(file)
+	if len(lines) != k {
+		return fmt.Errorf("the partition file of the replicates has %d lines for %d partitions: %q", len(lines), k, file)
+	}
+	co, cg := colsOf(orig), colsOf(got)
+	next := 0
+	for p, line := range lines {
+		eq := strings.IndexByte(line, '=')
+		if eq < 0 {
+			return fmt.Errorf("partition file of the replicates, line %d: no '=': %q", p+1, line)
+		}
+		var cols []int
+		for _, f := range strings.Split(line[eq+1:], ",") {
+			f = strings.TrimSpace(f)
+			if f == "" {
+				continue
+			}
+			a, b := f, f
+			if i := strings.IndexByte(f, '-'); i >= 0 {
+				a, b = f[:i], f[i+1:]
+			}
+			x, e1 := strconv.Atoi(a)
+			y, e2 := strconv.Atoi(b)
+			if e1 != nil || e2 != nil || x < 1 || y < x {
+				return fmt.Errorf("partition file of the replicates, line %d: unreadable range %q", p+1, f)
+			}
+			for j := x - 1; j <= y-1; j++ {
+				cols = append(cols, j)
+			}
+		}
+		size := 0
+		have := map[string]bool{}
+		for j, c := range co {
+			if part[j] == p {
+				size++
+				have[c] = true
+			}
+		}
+		lo, hi := floors(frac, size)
+		if frac <= 0 || frac > 1 {
+			lo, hi = size, size
+		}
+		if len(cols) != lo && len(cols) != hi {
+			return fmt.Errorf("partition file of the replicates: partition %d gets %d columns, floor(frac*%d) = %d expected: %q", p, len(cols), size, lo, file)
+		}
+		for _, j := range cols {
+			if j != next {
+				return fmt.Errorf("partition file of the replicates: partition %d does not continue at column %d (it lists column %d): %q", p, next+1, j+1, file)
+			}
+			if j >= gl {
+				return fmt.Errorf("partition file of the replicates: column %d is beyond the replicate (%d columns): %q", j+1, gl, file)
+			}
+			if !have[cg[j]] {
+				return fmt.Errorf("partition file of the replicates gives column %d = %q to partition %d, it is not a column of that partition of the original: %q", j+1, cg[j], p, file)
+			}
+			next++
+		}
+	}
+	if next != gl {
+		return fmt.Errorf("the partition file of the replicates covers %d of the %d columns: %q", next, gl, file)
+	}
+	return nil
 }
 
 // parsePhylips is a minimal reader of concatenated sequential/interleaved phylip alignments whose
